@@ -106,6 +106,12 @@ def run(chk):
     all_dis += d
     all_fail += f
     hist = P.histogram(gens, gos)
+    # the parser model on the same texts: the tree the interpreter model is run on is also the model's own
+    import parse_model
+    pdis, pstats = parse_model.compare([c["script"] for c in cases], gos)
+    stats.update(pstats)
+    stats["model_comparisons"] += pstats["parser_model_comparisons"]
+    all_dis += [(c, go, m, why) for c, go, m, why in pdis]
 
     # 2b. aliasing-focused sub-stream: few distinct values, almost everything through reused variables
     # (one variable read at several places and in several statements; payments split in steps)
